@@ -11,14 +11,14 @@ CHECK = {
   'id': 'C01',
   'level': 'model_checking',
   'rule': ('every directed graph (self-loops, cycles, sharing) on n nodes x every assignment of node representations '
-           '{plain struct, Ref, Box, Array<Ref>, List<Ref>, Table<Ref,Ref>, Tree<Ref,Ref>, heap Tuple} x every assignment of a root kind per node '
+           '{plain struct, Ref, Box, Array<Ref>, List<Ref>, Table<Ref,Ref>, Tree<Ref,Ref>, heap Tuple, and Tree/Table with a 4-byte tag type on one side and Ref on the other, Array/List/Tree holding plain structs inline whose fields are the references} x every assignment of a root kind per node '
            '{none, stack slot, new_root, root-registered Ref holder, thread-local entry, callee-saved register (r12; gcc -O0 library)} x {forced, threshold-triggered} collection x two allocation orders is built on the real heap '
            'under a fresh collector; after the collection every node the shadow graph reaches from the declared roots must still be registered and read back intact. '
            'states = distinct shapes, transitions = executions. distinct_nontrivial = executions in which some but not all nodes are reachable. '
            'Plus container size ladders (every rehash/realloc boundary, grow and shrink) and chain lengths 10^2..10^5/10^6 in forked children. '
            'Histories (allocations, links, deletions, collections in every order) are explored by the C17/C06 state graph, whose oracle also rejects a reclaimed reachable object.'),
   'bounds': {
-    'quick': 'n=2 all 8 representations x 5 root kinds (both collection modes); n=3 over {plain, Box, Table} x {none, stack, thread-local}; ladders 0..102 children; chains to 10^5 links',
+    'quick': 'n=2 all 8 basic representations x 5 root kinds (both collection modes); n=2 over the 7 mixed-size/inline-struct representations x {none, stack, thread-local/new_root}; n=3 over {plain, Tree<tag,Ref>, Tree<Ref,tag>, Table<Ref,tag>}; n=3 over {plain, Box, Table} x {none, stack, thread-local}; ladders 0..102 children; chains to 10^5 links',
     'thorough': 'n=2 and n=3 complete (all 8 representations x all 5 root kinds, forced collection; threshold collection over 5 representations); n=4 over {plain}, {plain, Tuple} and {plain, Box}; register roots n=2, n=3; ladders; chains to 10^6 links',
   },
   'assumptions': [
@@ -32,12 +32,17 @@ CHECK = {
               + shapes('n2asan', 'asan', 2, 'prbtu', '-snt', 1, 'forced')
               + shapes('n3', 'base', 3, 'pbt', '-st', 4, 'forced') + shapes('n3', 'base', 3, 'pbt', '-st', 4, 'threshold')
               + shapes('n2reg', 'cfg-gcc-O0', 2, 'prbaltTu', '-g', 1, 'forced') + shapes('n2reg', 'cfg-gcc-O0', 2, 'prbaltTu', '-g', 1, 'threshold')
+              + shapes('n2small', 'base', 2, 'pSVHhALP', '-st', 1, 'forced') + shapes('n2small', 'base', 2, 'prSVHhALP', '-sn', 1, 'threshold')
+              + shapes('n2smallasan', 'asan', 2, 'pSVHhALP', '-s', 1, 'forced') + shapes('n3small', 'base', 3, 'pSVh', '-s', 4, 'forced')
               + [R('ladder', 'base', 'mode=ladder'), R('ladder-asan', 'asan', 'mode=ladder'), R('chain', 'base', 'mode=chain', 'maxlen=100000')]),
     'thorough': (shapes('n2', 'base', 2, 'prbaltTu', '-snrt', 1, 'forced') + shapes('n2', 'base', 2, 'prbaltTu', '-snrt', 1, 'threshold')
               + shapes('n2asan', 'asan', 2, 'prbaltTu', '-snrt', 2, 'forced')
               + shapes('n3all', 'base', 3, 'prbaltTu', '-snrt', 16, 'forced') + shapes('n3thr', 'base', 3, 'prbtu', '-st', 4, 'threshold')
               + shapes('n4plain', 'base', 4, 'p', '-s', 1, 'forced') + shapes('n4pu', 'base', 4, 'pu', '-s', 8, 'forced') + shapes('n4pb', 'base', 4, 'pb', '-st', 8, 'threshold')
               + shapes('n2reg', 'cfg-gcc-O0', 2, 'prbaltTu', '-gs', 1, 'forced') + shapes('n2reg', 'cfg-gcc-O0', 2, 'prbaltTu', '-gs', 1, 'threshold') + shapes('n3reg', 'cfg-gcc-O0', 3, 'pbtu', '-g', 2, 'forced')
+              + shapes('n2small', 'base', 2, 'prbSVHhALP', '-snrt', 2, 'forced') + shapes('n2small', 'base', 2, 'prbSVHhALP', '-snrt', 2, 'threshold')
+              + shapes('n2smallasan', 'asan', 2, 'pSVHhALP', '-snrt', 2, 'forced') + shapes('n3small', 'base', 3, 'pSVHhALP', '-s', 16, 'forced')
+              + shapes('n3smallthr', 'base', 3, 'pSHAP', '-st', 8, 'threshold')
               + [R('ladder', 'base', 'mode=ladder'), R('ladder-asan', 'asan', 'mode=ladder'), R('chain', 'base', 'mode=chain', 'maxlen=1000000', timeout=3000)]),
   },
 }
